@@ -55,9 +55,13 @@ LEVEL_TEXT = ('Theorems for ALL structured programs (any nesting depth, any numb
               'depth <= 3 incl. the extended space and depth 4 exhaustively when the time budget allows - the evidence says which; each '
               'global / in a function / several functions / in a function defined while global blocks are open), exhaustive controlling-'
               'expression enumeration (every if / elif / while / for site x every expression kind and constant class x every way the body '
-              'leaves) and random programs (depth <= 6, half of them with pool expressions substituted for their tests): parse_script '
-              'output vs spec vs mirror, plus direct oracles on the '
-              'implementation output (validate_script, per-scope label/jump census, lint_script, execution).')
+              'leaves) and random programs (depth <= 6, half of them with pool expressions substituted for their tests) and, since the lowering must not depend on '
+              'how a line is spelled, by the spelling streams (every gap of every statement line kind x every white-space class of the '
+              'line grammar / line-continuation form / line end / non-statement line, one deviation at a time exhaustively, whole '
+              'programs in uniform and random styles, text as one string or as a list of lines, identifiers that look like keywords): '
+              'parse_script output vs spec vs mirror, plus direct oracles on the '
+              'implementation output (validate_script, per-scope label/jump census, only generated names in structured code, lint_script, '
+              'execution).')
 LEVEL_NOTE = ('Trusted: Lean kernel; extract.py; harness (progen renderer, scope oracles). The core theorems speak about the spec lowering; '
               'parsed_well_formed carries them to the line-at-a-time mirror via the imported C01.parseLines_render. WellNested is not needed '
               'by any spec-level theorem (lowerS none .brk emits nothing) - it is what makes the parser accept the program and is a conclusion '
@@ -342,6 +346,290 @@ def mutate_controls(block, rng, p):
 
 
 # ---------------------------------------------------------------------------------------------------------------------
+# spelling family: the lowering must not depend on HOW a statement line is spelled.  Every statement line of the language is a
+# sequence of tokens separated by gaps that its line grammar declares as `\s*` (optional) or `\s+` (required), with `\s*` in front
+# and behind; a gap may also be a line continuation (backslash, optional white space, line end; the parts are joined with one
+# blank), lines end with LF or CR LF, comment / blank lines may stand anywhere (also inside a continuation), and the text may be
+# handed to parse_script as one string or as a list of lines.  All of this is white space in the sense of Python's `\s`, i.e.
+# far more than blank and tab.  The renderer below spells a structured program with any filler in any gap.
+# ---------------------------------------------------------------------------------------------------------------------
+
+LEAD, OPT, REQ, TRAIL = 'lead', 'opt', 'req', 'trail'
+_O0, _O1, _R1 = (OPT, ''), (OPT, ' '), (REQ, ' ')
+
+
+def _tline(indent, *parts):
+    return [(LEAD, '    ' * indent)] + list(parts) + [(TRAIL, '')]
+
+
+def token_lines(block, indent=0, out=None):
+    """The lines of a structured program as token lists: str = token, (kind, canonical filler) = gap.  With every gap at its canonical
+    filler this is exactly progen.render (asserted for every case of the spelling streams)."""
+    out = [] if out is None else out
+    ex = progen.expr_text
+    for s in block:
+        k = s['k']
+        if k == 'expr':
+            out.append(_tline(indent, s['name'], _O1, '=', _O1, ex(s['e'])) if s.get('name') else _tline(indent, ex(s['e'])))
+        elif k == 'ret':
+            out.append(_tline(indent, 'return', _R1, ex(s['e'])) if s.get('e') else _tline(indent, 'return'))
+        elif k == 'if':
+            out.append(_tline(indent, 'if', _R1, ex(s['c']), _O0, ':'))
+            token_lines(s['t'], indent + 1, out)
+            els = s.get('else')
+            while els is not None:
+                if els['k'] == 'else':
+                    out.append(_tline(indent, 'else', _O0, ':'))
+                    token_lines(els['b'], indent + 1, out)
+                    els = None
+                else:
+                    out.append(_tline(indent, 'elif', _R1, ex(els['c']), _O0, ':'))
+                    token_lines(els['t'], indent + 1, out)
+                    els = els.get('else')
+            out.append(_tline(indent, 'endif'))
+        elif k == 'while':
+            out.append(_tline(indent, 'while', _R1, ex(s['c']), _O0, ':'))
+            token_lines(s['b'], indent + 1, out)
+            out.append(_tline(indent, 'endwhile'))
+        elif k == 'for':
+            ix = [_O0, ',', _O1, s['index']] if s.get('index') else []
+            out.append(_tline(indent, 'for', _R1, s['value'], *ix, _R1, 'in', _R1, ex(s['vals']), _O0, ':'))
+            token_lines(s['b'], indent + 1, out)
+            out.append(_tline(indent, 'endfor'))
+        elif k in ('break', 'continue'):
+            out.append(_tline(indent, k))
+        elif k == 'func':
+            parts = (['async', _R1] if s.get('async') else []) + ['function', _R1, s['name'], _O0, '(', _O0]
+            for i, a in enumerate(s['args']):
+                parts += ([_O0, ',', _O1] if i else []) + [a]
+            if s.get('lastArgArray'):
+                parts += [_O0, '...']
+            if s['args']:
+                parts.append(_O0)
+            out.append(_tline(indent, *parts, ')', _O0, ':'))
+            token_lines(s['b'], indent + 1, out)
+            out.append(_tline(indent, 'endfunction'))
+        elif k == 'label':
+            out.append(_tline(indent, s['name'], _O0, ':'))
+        elif k == 'jump':
+            if s.get('c'):
+                out.append(_tline(indent, 'jumpif', _O1, '(', _O0, ex(s['c']), _O0, ')', _R1, s['name']))
+            else:
+                out.append(_tline(indent, 'jump', _R1, s['name']))
+        elif k == 'include':
+            for inc_ in s['includes']:
+                url = '<' + inc_['url'] + '>' if inc_.get('system') else "'" + inc_['url'].replace("'", "\\'") + "'"
+                out.append(_tline(indent, 'include', _R1, url))
+        else:
+            raise ValueError(k)
+    return out
+
+
+# fillers.  White space inside a line: everything Python's `\s` matches that is not the line feed (a CR that is not followed by LF
+# does not end a line either)
+WS_PLAIN = [' ', '\t', '  ', ' \t ']
+WS_EXOTIC = ['\x0b', '\x0c', '\r', '\x1c', '\x1f', '\x85', '\xa0', '\u1680', '\u2003', '\u2028', '\u2029', '\u202f', '\u205f', '\u3000']
+# line continuations (legal in a leading, optional or required gap; the parts are stripped and joined with one blank): bare, with
+# white space on both sides, white space between backslash and line end, CR LF, a blank line / a comment line / a second
+# continuation inside the continued statement
+CONTINUATIONS = ['\\\n', ' \\\n    ', '\t\\ \t\n\t', ' \\\r\n  ', ' \\\n\n  ', ' \\\n  # else:\n  ', ' \\\n \\\n ', '\xa0\\\u3000\n\u2003']
+# lines that are no statements
+NOISE_LINES = ['', '   ', '\t', '# comment', '    # else:', '#endif', '# if x: \\', '\xa0', '#']
+EOLS = ['\n', '\r\n']
+FINALS = ['', '\n', '\r\n', '\r', '\n\n', '\n# end', '\n   ']
+
+
+def gap_fillers(kind, exotic=WS_EXOTIC):
+    """every filler class of one gap kind"""
+    if kind == TRAIL:
+        return [''] + WS_PLAIN + exotic
+    return ([''] if kind in (LEAD, OPT) else []) + WS_PLAIN + exotic + CONTINUATIONS
+
+
+UNIFORM_STYLES = {
+    # name: (lead, opt, req, trail, eol, noise line between statements, final)   lead None = canonical indentation
+    'tight': ('', '', ' ', '', '\n', None, ''),
+    'wide': (None, '  ', '   ', '  ', '\n', None, '\n'),
+    'tabs': ('\t', '\t', '\t', '\t', '\n', None, '\n'),
+    'crlf': (None, ' ', ' ', '', '\r\n', None, '\r\n'),
+    'crlf-final-cr': (None, None, None, ' ', '\r\n', None, '\r'),
+    'comments': (None, None, None, '', '\n', '    # else:', '\n# end'),
+    'blank-lines': (None, None, None, '', '\n', '', '\n\n'),
+    'ws-lines': (None, None, None, '', '\r\n', ' \t ', '\n   '),
+    'continued': (None, ' \\\n    ', ' \\\n    ', '', '\n', None, '\n'),
+    'continued-bare': ('', '\\\n', '\\\n', '', '\n', None, ''),
+    'continued-crlf': (None, ' \\\r\n  ', ' \\\r\n  ', ' ', '\r\n', None, '\r\n'),
+    'continued-comments': (None, ' \\\n  # else:\n  ', ' \\\n\n  ', '', '\n', '# endif', '\n'),
+}
+for _ws in WS_EXOTIC:
+    UNIFORM_STYLES['ws-%04x' % ord(_ws)] = (_ws, _ws, _ws, _ws, '\n', None, '')
+STYLE_NAMES = sorted(UNIFORM_STYLES)
+
+
+def spell(tlines, style):
+    """text of token lines under a style (a JSON-able dict):
+         {'kind': 'canon'}                                       progen.render
+         {'kind': 'single', 'line': i, 'gap': j, 'fill': s}      one gap of one line changed
+         {'kind': 'uniform', 'name': n}                          UNIFORM_STYLES[n] in every gap of every line
+         {'kind': 'random', 'seed': k, 'p': q}                   every gap changed with probability q to a random filler of its kind
+       optional for all: 'eol', 'final', 'noise' (a non-statement line in front of every statement line)"""
+    import random
+    kind = style['kind']
+    rnd = random.Random(style['seed']) if kind == 'random' else None
+    uni = UNIFORM_STYLES[style['name']] if kind == 'uniform' else None
+    eol = style.get('eol', uni[4] if uni else '\n')
+    noise = style.get('noise', uni[5] if uni else None)
+    final = style.get('final', uni[6] if uni else '')
+    out = []
+    for li, tl in enumerate(tlines):
+        buf, gi = [], 0
+        for part in tl:
+            if isinstance(part, str):
+                buf.append(part)
+                continue
+            gkind, canon = part
+            fill = canon
+            if kind == 'single':
+                if li == style['line'] and gi == style['gap']:
+                    fill = style['fill']
+            elif kind == 'uniform':
+                u = uni[(LEAD, OPT, REQ, TRAIL).index(gkind)]
+                fill = canon if u is None else u
+            elif kind == 'random':
+                if rnd.random() < style.get('p', 0.3):
+                    fill = rnd.choice(gap_fillers(gkind))
+            buf.append(fill)
+            gi += 1
+        if rnd is not None:
+            if rnd.random() < 0.12:
+                out.append(rnd.choice(NOISE_LINES) + rnd.choice(EOLS))
+            out.append(''.join(buf) + (rnd.choice(EOLS) if li + 1 < len(tlines) else ''))
+        else:
+            if noise is not None:
+                out.append(noise + eol)
+            out.append(''.join(buf) + (eol if li + 1 < len(tlines) else ''))
+    if rnd is not None:
+        final = rnd.choice(FINALS)
+    return ''.join(out) + final
+
+
+def style_tag(style):
+    if style is None or style['kind'] == 'canon':
+        return 'spell:canon'
+    if style['kind'] == 'uniform':
+        return 'spell:' + style['name']
+    return 'spell:' + style['kind']
+
+
+def filler_class(fill):
+    if fill == '':
+        return 'none'
+    if '\\' in fill:
+        return 'continuation'
+    return 'plain' if fill in WS_PLAIN else 'ws-%04x' % ord(fill[0])
+
+
+def line_signature(tl):
+    """what kind of statement line this is (names and expressions abstracted)"""
+    toks = [p for p in tl if isinstance(p, str)]
+    head = toks[0]
+    if head in ('if', 'elif', 'else', 'endif', 'while', 'endwhile', 'for', 'endfor', 'break', 'continue', 'return', 'function', 'async',
+                'endfunction', 'jump', 'jumpif', 'include'):
+        return head + ':%d' % len(toks)
+    if len(toks) == 2 and toks[1] == ':':
+        return 'label'
+    return 'assign' if len(toks) > 1 and toks[1] == '=' else 'exprstmt'
+
+
+def spelling_hosts():
+    """small programs in which every statement line kind of the language occurs where its lowering matters: [(name, prog, raw)]"""
+    lt = lambda a, k: wf_binary('<', var(a), num(k))  # noqa: E731
+    arr = call('arrayNew', num(1), num(2), num(3))
+    chain = _if(_even(2), [{'k': 'expr', 'name': 'o', 'e': num(1)}, {'k': 'continue'}],
+                {'k': 'elif', 'c': _even(3), 't': [{'k': 'expr', 'name': 'o', 'e': num(2)}, {'k': 'break'}],
+                 'else': {'k': 'else', 'b': [{'k': 'expr', 'name': 'o', 'e': num(3)}]}})
+    loop = [{'k': 'expr', 'name': 'n', 'e': num(0)}, {'k': 'while', 'c': lt('n', 4), 'b': [inc('n'), chain, inc('m')]}]
+    fors = [{'k': 'for', 'value': 'v', 'index': 'i', 'vals': arr, 'b': [_if(wf_binary('==', var('v'), num(2)), [{'k': 'continue'}]), inc('s')]},
+            {'k': 'for', 'value': 'w', 'index': None, 'vals': arr, 'b': [_if(_ge2(), [{'k': 'break'}], {'k': 'else', 'b': [inc('n')]})]}]
+    funcs = [dict(func('fa', [_if(var('a'), [{'k': 'ret', 'e': var('b')}], {'k': 'else', 'b': [{'k': 'ret', 'e': None}]})], ['a', 'b']),
+                  lastArgArray=True),
+             dict(func('fb', [{'k': 'while', 'c': lt('q', 2), 'b': [inc('q')]}, {'k': 'ret', 'e': var('q')}], ['q']), **{'async': True}),
+             func('fc', [{'k': 'expr', 'name': None, 'e': call('fa', num(1), num(2))}], ['p', 'q', 'r']),
+             func('g', [_if(var('zz'), [{'k': 'ret', 'e': num(1)}], {'k': 'elif', 'c': var('n'), 't': [inc('n')], 'else': None})]),
+             {'k': 'expr', 'name': 'r1', 'e': call('fa', num(1), num(2), num(3))}, {'k': 'expr', 'name': 'r2', 'e': call('fb', num(0))},
+             {'k': 'expr', 'name': None, 'e': call('fc')}, {'k': 'expr', 'name': 'r3', 'e': call('g')}]
+    raw = [{'k': 'expr', 'name': 'n', 'e': num(0)}, {'k': 'label', 'name': 'top'}, inc('n'),
+           _if(_even(2), [inc('m')], {'k': 'else', 'b': [{'k': 'jump', 'name': 'skip', 'c': None}]}),
+           {'k': 'label', 'name': 'skip'}, {'k': 'jump', 'name': 'top', 'c': lt('n', 3)},
+           func('fa', [{'k': 'label', 'name': 'top'}, inc('q'), {'k': 'jump', 'name': 'top', 'c': lt('q', 2)},
+                       {'k': 'while', 'c': lt('q', 4), 'b': [inc('q')]}], ['q']),
+           {'k': 'expr', 'name': None, 'e': call('fa', num(0))}]
+    incl = [{'k': 'include', 'includes': [{'url': 'a.bare', 'system': False}, {'url': 'b.bare', 'system': True}]},
+            _if(var('x'), [{'k': 'include', 'includes': [{'url': "it's.bare", 'system': False}]}], {'k': 'else', 'b': [inc('x')]}),
+            func('fa', [{'k': 'include', 'includes': [{'url': 'c.bare', 'system': True}]}, {'k': 'while', 'c': lt('q', 2), 'b': [inc('q')]}], ['q'])]
+    hosts = [('loop-chain', loop, False),
+             ('loop-chain-fn', [func('fa', loop + [{'k': 'ret', 'e': var('m')}]), {'k': 'expr', 'name': 'r', 'e': call('fa')}], False),
+             ('fors', fors, False),
+             ('fors-fn', [func('fa', fors + [{'k': 'ret', 'e': var('s')}]), {'k': 'expr', 'name': 'r', 'e': call('fa')}], False),
+             ('functions', funcs, False), ('raw', raw, True), ('includes', incl, False)]
+    return [(name, progen.assign_fids(prog), raw_) for name, prog, raw_ in hosts]
+
+
+def single_sites(prog):
+    """(line index, gap index, gap kind, line signature) of the first line of every distinct token list of a program"""
+    seen = set()
+    for li, tl in enumerate(token_lines(prog)):
+        key = tuple(p if isinstance(p, str) else p[0] for p in tl[1:])
+        if key in seen:
+            continue
+        seen.add(key)
+        gi = 0
+        for part in tl:
+            if not isinstance(part, str):
+                yield li, gi, part[0], line_signature(tl)
+                gi += 1
+
+
+def single_cases(exotic=WS_EXOTIC):
+    """EVERY gap of every line kind of every host x every filler class of that gap (one deviation from the canonical spelling each)"""
+    for name, prog, raw_ in spelling_hosts():
+        for li, gi, gkind, sig in single_sites(prog):
+            for fill in gap_fillers(gkind, exotic):
+                yield (prog, ['spelling-single', 'host:' + name, 'line:' + sig, 'gap:' + gkind, 'fill:' + filler_class(fill)],
+                       {'kind': 'single', 'line': li, 'gap': gi, 'fill': fill}), raw_
+        for extra in ([{'final': f} for f in FINALS[1:]] + [{'eol': '\r\n'}] + [{'noise': nl} for nl in NOISE_LINES]):
+            yield (prog, ['spelling-single', 'host:' + name, 'lines:' + next(iter(extra))], dict({'kind': 'canon'}, **extra)), raw_
+
+
+# names that begin with (or differ only in case from) a statement keyword: the line classifier must not take a line that starts with
+# such a name for the keyword's statement
+LOOKALIKE = {
+    'n': 'iff', 'm': 'elsewhere', 'o': 'endiff', 's': 'whiles', 'g': 'ELSE', 'h': 'Endif', 'v': 'forx', 'w': 'in_', 'p': 'returns',
+    'q': 'breaks', 'r': 'continued', 'r1': 'jumps', 'r2': 'jumpifx', 'r3': 'includes', 'x': 'asyncx', 'zz': 'endwhile_', 'a': 'elif_',
+    'b': 'functional', 'i': 'endfor2', 'fa': 'functions', 'fb': 'endfunctions', 'fc': 'breakfast', 'top': 'elsex', 'skip': 'Continue',
+    'v0': 'if_', 'v1': 'else_', 'v2': 'while1', 'i0': 'For', 'i1': 'Break', 'i2': 'RETURN',
+}
+
+
+def rename(obj, table=None):
+    """a structured program with its user identifiers (variables, functions, parameters, loop names, labels) renamed"""
+    table = LOOKALIKE if table is None else table
+    if isinstance(obj, list):
+        return [rename(x, table) for x in obj]
+    if not isinstance(obj, dict):
+        return obj
+    out = {}
+    for k, v in obj.items():
+        if k in ('name', 'value', 'index', 'variable') and isinstance(v, str):
+            out[k] = table.get(v, v)
+        elif k == 'args' and v and all(isinstance(a, str) for a in v):
+            out[k] = [table.get(a, a) for a in v]
+        else:
+            out[k] = rename(v, table)
+    return out
+
+
+# ---------------------------------------------------------------------------------------------------------------------
 # the property's own oracles, on the implementation's output (independent of the Lean model)
 # ---------------------------------------------------------------------------------------------------------------------
 
@@ -373,10 +661,12 @@ def scope_defects(statements, generated_only=False):
     return out
 
 
-def check_model(ctx, text, model, generated_only=False, execute=True):
+def check_model(ctx, text, model, generated_only=False, execute=True, as_lines=False):
     """Run every implementation-side oracle on one parsed model; report witnesses; return the execution outcome tag."""
     mods = fw.impl()
     inp = {'text': text, 'generated_only': generated_only}
+    if as_lines:
+        inp['as_lines'] = True
     # 1. schema
     try:
         mods['model'].validate_script(model)
@@ -387,6 +677,13 @@ def check_model(ctx, text, model, generated_only=False, execute=True):
     if defects:
         ctx.witness('scope-labels', inp, 'every jump targets a label defined exactly once in the same scope; every label targeted; unique',
                     defects[:6])
+    # 2b. purely structured source (no label / jump line): everything the lowering emits carries the reserved prefix
+    if not generated_only:
+        foreign = sorted({f'{scope}: {name}' for scope, stmts in scopes_of(model['statements']) for st in stmts
+                          for name in ([st['label']] if 'label' in st else [st['jump']['label']] if 'jump' in st else [])
+                          if not name.startswith(RESERVED)})
+        if foreign:
+            ctx.witness('foreign-label', inp, 'structured code lowers to generated (__bareScript...) labels and jumps only', foreign[:6])
     # 3. lint
     warnings = mods['model'].lint_script(model)
     bad = [w for w in warnings if RE_LABEL_WARNING.match(w) and (not generated_only or RESERVED in w)]
@@ -403,10 +700,11 @@ def check_model(ctx, text, model, generated_only=False, execute=True):
     return tag
 
 
-def parse_impl(text):
+def parse_impl(text, as_lines=False):
+    """as_lines: hand the text to parse_script as a list of lines (the other documented input form)"""
     parser = fw.impl()['parser']
     try:
-        return parser.parse_script(text), None
+        return parser.parse_script(text.split('\n') if as_lines else text), None
     except parser.BareScriptParserError as exc:
         return None, exc.error
     except Exception as exc:  # pylint: disable=broad-except
@@ -415,11 +713,21 @@ def parse_impl(text):
 
 
 def run_cases(ctx, st, stream, cases, generated_only=False):
-    """cases: [(prog, tags)]; one driver batch; correspondence + oracles"""
-    resps = ctx.driver.batch([{'op': 'lower', 'prog': prog} for prog, _ in cases])
-    for (prog, tags), resp in zip(cases, resps):
+    """cases: [(prog, tags) or (prog, tags, style)]; one driver batch; correspondence + oracles.  The expected lowering is a function
+    of the structured program alone: a style (see `spell`) changes the text handed to parse_script, not the model's answer."""
+    resps = ctx.driver.batch([{'op': 'lower', 'prog': case[0]} for case in cases])
+    for case, resp in zip(cases, resps):
+        prog, style = case[0], (case[2] if len(case) > 2 else None)
+        tags = list(case[1]) + ([style_tag(style)] if style is not None else [])
         text = '\n'.join(progen.render(prog))
-        model, err = parse_impl(text)
+        as_lines = False
+        if style is not None:
+            tlines = token_lines(prog)
+            if spell(tlines, {'kind': 'canon'}) != text:
+                raise AssertionError('token_lines does not reproduce progen.render: ' + text[:200])
+            text = spell(tlines, style)
+            as_lines = bool(style.get('as_lines'))
+        model, err = parse_impl(text, as_lines)
         if model is None:
             # not a well-nested program: the parser rejects it; only the mirror has something to say
             st.case(text, nontrivial=False, tags=list(tags) + ['rejected'])
@@ -431,7 +739,7 @@ def run_cases(ctx, st, stream, cases, generated_only=False):
             if out != impl:                       # literals are exact rationals on the model side: round only when it matters
                 out = progen.round_script_numbers(out)
             ctx.compare(f'{stream}-{side}', text, impl, out)
-        tag = check_model(ctx, text, model, generated_only)
+        tag = check_model(ctx, text, model, generated_only, as_lines=as_lines)
         nlabels = sum(1 for _, stmts in scopes_of(model['statements']) for s in stmts if 'label' in s)
         st.case(text, nontrivial=nlabels > 0, tags=list(tags) + ['exec:' + tag])
 
@@ -557,8 +865,9 @@ def streams(ctx):
     if corpus:
         st = ctx.stream('corpus', 'hand-picked programs (harness/corpus/C07.jsonl): elif chains without else, continue through nested ifs, '
                                   'while+continue, raw labels next to generated ones, merged includes, ill-nested programs the parser rejects')
-        run_cases(ctx, st, 'corpus', [(progen.assign_fids(c['prog']), ['corpus']) for c in corpus if not c.get('raw')])
-        run_cases(ctx, st, 'corpus', [(progen.assign_fids(c['prog']), ['corpus-raw']) for c in corpus if c.get('raw')], generated_only=True)
+        entry = lambda c, tag: (progen.assign_fids(c['prog']), [tag]) + ((c['style'],) if c.get('style') else ())  # noqa: E731
+        run_cases(ctx, st, 'corpus', [entry(c, 'corpus') for c in corpus if not c.get('raw')])
+        run_cases(ctx, st, 'corpus', [entry(c, 'corpus-raw') for c in corpus if c.get('raw')], generated_only=True)
 
     # --- stream shapes: exhaustive, literal space depth <= 3 (quick 2) + extended space depth <= 3 (quick 2)
     depth_a = ctx.scale(2, 3)
@@ -616,6 +925,96 @@ def streams(ctx):
     ctx.notes.append(f'controls: {len(todo) // len(contexts)} (site, expression, body) combinations x {len(contexts)} contexts, '
                      f'enumerated completely')
 
+    # --- stream spelling-single: exhaustive, every gap of every statement line kind x every filler class, one deviation at a time
+    exotic = WS_EXOTIC
+    st = ctx.stream('spelling-single',
+                    f'EXHAUSTIVE: 7 host programs (if / elif / else chain with break and continue in a while, at global scope and in a '
+                    f'function; for / for-with-index with continue and break, global and in a function; function headers: async, no / one / '
+                    f'several parameters, last-argument array, bare and valued return; raw label / jump / jumpif next to structured code; '
+                    f'include lines) - for the first line of every distinct statement form, EVERY gap of its line grammar (leading, '
+                    f'optional, required, trailing) x every filler: none, blank, tab, mixed, each of {len(exotic)} other characters that '
+                    f'are white space for the line grammar (VT FF CR FS US NEL NBSP and the Unicode Zs / Zl / Zp spaces), '
+                    f'{len(CONTINUATIONS)} line-continuation forms (bare, padded, white space after the backslash, CR LF, a blank / comment '
+                    f'line / second continuation inside); plus CR LF line ends, {len(FINALS) - 1} ways to end the text and '
+                    f'{len(NOISE_LINES)} kinds of non-statement lines between the statements; the expected lowering is that of the '
+                    f'structured program; non-trivial = the lowered code defines at least one label')
+    singles = list(single_cases(exotic))
+    # every 5th case is handed to parse_script as a list of lines
+    singles = [((c[0], c[1], dict(c[2], as_lines=True)) if i % 5 == 4 else c, raw_) for i, (c, raw_) in enumerate(singles)]
+    jobs = [('progs', 'spelling-single', ch, False) for ch in chunks([c for c, raw_ in singles if not raw_], 600)] + \
+           [('progs', 'spelling-single', ch, True) for ch in chunks([c for c, raw_ in singles if raw_], 600)]
+    run_jobs(ctx, st, jobs)
+    st.exhaustive = True
+    ctx.notes.append(f'spelling-single: {len(singles)} (host, line, gap, filler) combinations, enumerated completely')
+
+    # --- stream spelling-styles: whole programs in one style
+    depth_s = ctx.scale(1, 2)
+    st = ctx.stream('spelling-styles',
+                    f'every shape of the extended space of depth <= {depth_s} x {{global, in a function, several functions, function inside '
+                    f'open blocks}} x EVERY uniform style ({len(STYLE_NAMES)}: tight, wide, tabs, CR LF, comment / blank / white-space '
+                    f'lines between all statements, every gap a continuation (4 forms), every gap one of the {len(WS_EXOTIC)} other '
+                    f'white-space characters), every third case as a list of lines; the shapes of depth {depth_s + 1} (extended space up to '
+                    f'depth 2, literal space beyond) with two styles each and the controlling-expression pool at every site with the styles taken in rotation; the same with all user identifiers '
+                    f'renamed to keyword look-alikes (iff, elsewhere, endiff, ELSE, Endif, forx, in_, returns, breaks, continued, '
+                    f'functions, ...); non-trivial = the lowered code defines at least one label')
+    todo, k = [], 0
+    for depth in range(1, depth_s + 2):
+        for shape in shapes(depth, False, depth <= 2):      # beyond depth 2 the literal space (the extended one has 28736 shapes)
+            body = build(shape)
+            for context in CONTEXTS_PLUS:
+                names = STYLE_NAMES if depth <= depth_s else [STYLE_NAMES[(k + j * 7) % len(STYLE_NAMES)] for j in range(2)]
+                for name in names:
+                    k += 1
+                    prog = in_context(body, context)
+                    tags = ['styles', 'depth%d' % depth, context]
+                    if k % 4 == 0:
+                        prog = rename(prog)
+                        tags.append('lookalike-names')
+                    style = {'kind': 'uniform', 'name': name}
+                    if k % 3 == 0:
+                        style['as_lines'] = True
+                    todo.append((prog, tags, style))
+    for variant, pos, ix, body_kind in control_specs():
+        if body_kind == 'plain':
+            k += 1
+            prog = in_context(control_construct(variant, pos, COND_POOL[ix], body_kind), 'function' if k % 2 else 'global')
+            todo.append((prog, ['styles', 'controls', variant + '@' + pos, 'expr:' + expr_class(COND_POOL[ix])],
+                         {'kind': 'uniform', 'name': STYLE_NAMES[k % len(STYLE_NAMES)]}))
+    for name, prog, raw_ in spelling_hosts():
+        if not raw_:
+            for sname in STYLE_NAMES:
+                todo.append((rename(prog), ['styles', 'host:' + name, 'lookalike-names'], {'kind': 'uniform', 'name': sname}))
+    run_jobs(ctx, st, [('progs', 'spelling-styles', ch, False) for ch in chunks(todo, 500)])
+    raw_todo = [(rename(prog) if j % 2 else prog, ['styles', 'host:' + name] + (['lookalike-names'] if j % 2 else []),
+                 {'kind': 'uniform', 'name': sname})
+                for name, prog, raw_ in spelling_hosts() if raw_ for j, sname in enumerate(STYLE_NAMES + STYLE_NAMES)]
+    run_jobs(ctx, st, [('progs', 'spelling-styles', raw_todo, True)])
+
+    # --- stream spelling-random: random programs, every gap spelled at random
+    rng = ctx.rng('spelling-random')
+    n = ctx.scale(240, 5000)
+    st = ctx.stream('spelling-random',
+                    'progen.Gen programs (depth <= 5, a quarter with raw labels / jumps) spelled at random: each gap of each line gets, with '
+                    'probability 0.15 / 0.4 / 1, a random filler of its kind (white space of any class, a continuation form), random LF / '
+                    'CR LF line ends, non-statement lines in between, a random end of text; every third program with look-alike '
+                    'identifiers, every fourth as a list of lines; non-trivial = the lowered code defines at least one label')
+    plain, raw = [], []
+    for i in range(n):
+        allow_raw = (i % 4 == 3)
+        gen = progen.Gen(rng, max_depth=rng.choice([2, 3, 4, 5]), allow_raw=allow_raw)
+        prog = gen.program()
+        tags = sorted(gen.stats)
+        if i % 3 == 0:
+            prog = rename(prog)
+            tags.append('lookalike-names')
+        style = {'kind': 'random', 'seed': rng.getrandbits(32), 'p': rng.choice([0.15, 0.4, 1.0])}
+        if i % 4 == 1:
+            style['as_lines'] = True
+        (raw if allow_raw else plain).append((prog, tags, style))
+    jobs = [('progs', 'spelling-random', ch, False) for ch in chunks(plain, 300)] + \
+           [('progs', 'spelling-random', ch, True) for ch in chunks(raw, 300)]
+    run_jobs(ctx, st, jobs)
+
     # --- stream random: progen programs, depth <= 6
     rng = ctx.rng('random')
     rng_controls = ctx.rng('random-controls')
@@ -670,13 +1069,34 @@ def search(ctx):
                 check_model(ctx, text, model, execute=(context != 'multi'))
         if len(ctx.witnesses) - before >= 20:
             return
+    # spellings: one deviation at a time, then whole-program styles over the shape space
+    for (prog, _, style), raw_ in single_cases():
+        text = spell(token_lines(prog), style)
+        model, _ = parse_impl(text)
+        if model is not None:
+            check_model(ctx, text, model, generated_only=raw_, execute=False)
+        if len(ctx.witnesses) - before >= 20:
+            return
+    for depth in range(1, maxd + 1):
+        for shape in shapes(depth, False, depth <= 2):
+            tlines = token_lines(in_context(build(shape), 'function'))
+            for name in STYLE_NAMES:
+                text = spell(tlines, {'kind': 'uniform', 'name': name})
+                model, _ = parse_impl(text)
+                if model is not None:
+                    check_model(ctx, text, model, execute=False)
+            if len(ctx.witnesses) - before >= 20:
+                return
     rng = ctx.rng('search')
     for i in range(ctx.scale(1500, 20000)):
         gen = progen.Gen(rng, max_depth=rng.choice([3, 4, 5, 6, 7]))
         prog = gen.program()
         if i % 2 == 1:
             mutate_controls(prog, rng, 0.34)
-        text = '\n'.join(progen.render(prog))
+        if i % 3 == 2:
+            text = spell(token_lines(prog), {'kind': 'random', 'seed': rng.getrandbits(32), 'p': rng.choice([0.15, 0.4, 1.0])})
+        else:
+            text = '\n'.join(progen.render(prog))
         model, _ = parse_impl(text)
         if model is not None:
             check_model(ctx, text, model, execute=False)
@@ -694,9 +1114,9 @@ class _Collect:
 
 def replay(witness):
     inp = witness['input']
-    model, _ = parse_impl(inp['text'])
+    model, _ = parse_impl(inp['text'], inp.get('as_lines', False))
     if model is None:
         return False
     col = _Collect()
-    check_model(col, inp['text'], model, inp.get('generated_only', False))
+    check_model(col, inp['text'], model, inp.get('generated_only', False), as_lines=inp.get('as_lines', False))
     return witness['oracle'] in col.witnesses
